@@ -200,11 +200,16 @@ def bounded(arg):
 
     class B(A):
         priority = 'low'
-    orig = {(c, f): getattr(c, f) for c in (A, B) for f in ('title', 'muted', 'priority', 'category')}
-    own = {(c, f) for c in (A, B) for f in ('title', 'muted', 'priority', 'category') if f in c.__dict__}
-    # every ordered pair of overrides over {A, B(A)} x fields x two values, then clear()
+
+    class N(A):
+        """declares None itself, hiding the value of its base class"""
+        title = None
+        muted = None
+    orig = {(c, f): getattr(c, f) for c in (A, B, N) for f in ('title', 'muted', 'priority', 'category')}
+    own = {(c, f) for c in (A, B, N) for f in ('title', 'muted', 'priority', 'category') if f in c.__dict__}
+    # every ordered pair of overrides over {A, B(A), N(A)} x fields x two values, then clear()
     import itertools as _it
-    pairs = list(_it.product(_it.product([A, B], ['title', 'muted', 'priority', 'category'], ['x', None]), repeat=2))
+    pairs = list(_it.product(_it.product([A, B, N], ['title', 'muted', 'priority', 'category'], ['x', None]), repeat=2))
     for ops_ in pairs:
         report = Report()
         for c, f, v in ops_:
@@ -240,6 +245,25 @@ def bounded(arg):
                              'detail': 'overrides %r then clear(): %r still overridden' % (ops, bad)})
             for (c, f), v in orig.items():
                 setattr(c, f, v)
+    # two calls of a class that declares constant_fields do not share state through them
+    class K(_F):
+        constant_fields = {'unit': 'cm'}
+        message_template = "{size}{unit}"
+    rep = _R()
+    evaluations += 1
+    distinct.add(('constant_fields',))
+    try:
+        k1 = K(report=rep, label='k1', size=3, location=7)
+        k2 = K(report=rep, label='k2', size=4)
+        if K.constant_fields != {'unit': 'cm'}:
+            failures.append({'id': 'construct', 'canon': 'constant_fields of the class changed by a call',
+                             'detail': 'after K(size=3, location=7): K.constant_fields = %r' % (K.constant_fields,)})
+        if k1.fields is k2.fields or k2.fields.get('size') != 4 or k1.fields.get('size') != 3 or 'location' in k2.fields \
+                or k1.message != '3cm' or k2.message != '4cm':
+            failures.append({'id': 'construct', 'canon': 'two feedback objects share their fields',
+                             'detail': 'k1.fields=%r k2.fields=%r messages %r %r' % (k1.fields, k2.fields, k1.message, k2.message)})
+    except Exception as e:
+        failures.append({'id': 'construct', 'canon': 'constant_fields call raises', 'detail': repr(e)})
     # the message-taking commands deliver the text they were given, once
     from pedal.core import commands as C
     from pedal.core.commands import clear_report
